@@ -33,6 +33,7 @@ def case(draw):
         ch = draw(strat.chain(cid="AB"[ci], nmin=1, nmax=4, variants=0.15, oxt=True,
                               hyd=draw(st.sampled_from(["none", "none", "all"]))))  # fmt: skip
         ch["shift"] = [30.0 * ci, 0.0, 0.0]
+        ch.pop("altmod", None)
         n = len(ch["seq"])
         if draw(st.integers(0, 2)) == 0:
             strat.add_insertion_codes(draw, ch)
